@@ -293,7 +293,14 @@ def path_ends(p, suffix):
     if isinstance(suffix, (tuple, list, set, frozenset)):
         return any(path_ends(p, s) for s in suffix)
     p2 = _strip_generics(p)
+    m = _QUAL.match(p2)
+    if m:  # `<X as T>::m` also answers to `T::m` and `X::m`
+        if path_ends(m.group(2) + "::" + m.group(3), suffix) or path_ends(m.group(1) + "::" + m.group(3), suffix):
+            return True
     return p2 == suffix or p2.endswith("::" + suffix) or p2.endswith(" " + suffix) or p2.endswith("<" + suffix)
+
+
+_QUAL = re.compile(r"^<(.+) as ([^<>]+)>::([^<>]+)$")
 
 
 def _strip_generics(p):
